@@ -82,3 +82,11 @@ package util
 //@ func processDependencyEnabled
 //@   props C11
 //@   requires c != nil && c.Metadata != nil && (forall j int :: 0 <= j && j < len(c.Metadata.Dependencies) ==> c.Metadata.Dependencies[j] != nil)
+
+// ---- C15: a Save that fails after the archive file exists removes it again (no partial package is left)
+
+// (the deferred clean-up closure has no contract: its body is encoded in place at the return)
+//@ func Save
+//@   props C15
+//@   requires c != nil
+//@   ensures [failed-save-leaves-no-archive] result1 != nil && result0 != "" ==> GremovedPaths[result0]
